@@ -311,6 +311,7 @@ def unit_overlap_iter(sess, ctx):
             if k == 0:
                 eng.assume(Not(v.open))
                 gh["phase"] = "closed"
+                eng.havoc_loop_locals(s, fr)
                 try:
                     eng.exec_block(s.body, fr)
                 except (_Break, _Continue):
@@ -345,8 +346,8 @@ def unit_overlap_iter(sess, ctx):
             v.pos = cons
             v.open = z3.BoolVal(True)
             clo = If(imul(k, h) < cons, imul(k, h), cons)
+            eng.havoc_loop_locals(s, fr)
             fr.env["cache"] = chunk(v, clo, cons - clo)
-            fr.env.pop("block", None)
             v.reads.clear()
             gh["yields_now"] = 0
             gh["phase"] = "main"
